@@ -26,7 +26,14 @@ DRIVER = "C13"
 RULE = ("one case = (generated program, entry point, sys.tracebacklimit) logged through 8 handlers "
         "(backtrace x diagnose x colorize), entry points opt(exception=) / catch decorator / catch context manager / ONE "
         "catch object reused over 2-5 decorator and context-manager uses (last use judged) / 2-3 stacked catch decorators "
-        "(inner, middle or outer catching) / decorated callables invoked by loguru (lazy argument, patcher, onerror); programs are built from call/raise/from/implicit-context/from-None/"
+        "(inner, middle or outer catching) / decorated callables invoked by loguru (lazy argument, patcher, onerror) / the "
+        "exception first passing through 1-3 catch(reraise=True) wrappers; sys.tracebacklimit in {unset, 0, 1, 3, 2, -1, 5, "
+        "1000, -7, 4}; sinks attached as callables or as stream objects with encoding ascii / None / unknown codec / "
+        "latin-1 / utf-8 (box-drawing or ASCII value arrows); source lines with attribute access on objects whose "
+        "properties raise and with keyword arguments; plus three unit-level streams: synthetic stacks given to "
+        "_extract_frames itself (hidden-file patterns x callers x limits x modes, with registered source lines and frame "
+        "variables), the closing-line grid (exception class x __str__ behaviour x raised/source/diagnose), list slices; "
+        "programs are built from call/raise/from/implicit-context/from-None/"
         "re-raise/notes/groups/groups-in-handlers/cycles/never-raised causes/SyntaxError/recursion/bad __str__/"
         "customised __eq__ __hash__ __len__ (unhashable dataclass, raising hash/eq, eq-always-True, value-equal "
         "instances meeting in one chain, falsy) "
@@ -37,6 +44,8 @@ TRUSTED = [
     "compared with traceback.format_exception on every generated group-free graph",
     "the text of traceback.format_exception_only, linecache and the tokenizer are Python's (opaque `excOnly` piece)",
     "value-arrow column layout, ANSI colouring and syntax highlighting are abstracted (stripped before parse-back)",
+    "Py/Slice.lean (list slicing with CPython's index clamping) is modelled; compared with real list slicing on a grid",
+    "the synthetic traceback / frame / code objects of the `synth` stream stand for CPython's (same attributes)",
 ]
 ASSUMPTIONS = ["CPython 3.12 traceback semantics", "repr/str/bool of user objects are deterministic oracles",
                "exception group member tuples are acyclic (immutable `exceptions`)"]
@@ -45,6 +54,7 @@ SECRET = "S3CR3T"
 ANSI = re.compile(r"\x1b\[[0-9;]*m")
 MODES = [(b, d, c) for b in (False, True) for d in (False, True) for c in (False, True)]
 LIMITS = [None, 0, 1, 3]
+MORE_LIMITS = [2, -1, 5, 1000, -7, 4]          # rotated in: both tiers see every value
 ENTRIES = ["opt", "decorator", "context"]
 CAUSE_MSG = "The above exception was the direct cause of the following exception:"
 CONTEXT_MSG = "During handling of the above exception, another exception occurred:"
@@ -121,6 +131,27 @@ class Ctl:
 
     def __repr__(self):
         return self.text
+
+
+class Holder:
+    """frame variable whose attributes appear in source lines: `v4.x` (instance attribute), `v4.boom` (a property
+    that raises) – the report must resolve them statically, never by running the property or `__getattr__`"""
+    touched = 0
+
+    def __init__(self, x):
+        self.x = x
+
+    @property
+    def boom(self):
+        Holder.touched += 1
+        raise RuntimeError(SECRET + " property evaluated")
+
+    def __getattr__(self, name):
+        Holder.touched += 1
+        raise AttributeError(name)
+
+    def __repr__(self):
+        return "<Holder " + SECRET + ">"
 
 
 def make_pool():
@@ -218,10 +249,23 @@ class Prog:
         out = ["    v1 = POOL[%d]" % r.below(NPOOL), "    v2 = POOL[%d]" % r.below(NPOOL)]
         if r.chance(30):
             out.append("    v3 = [v1, GSECRET]")
+        self.has_v4 = r.chance(25)
+        if self.has_v4:
+            out.append("    v4 = Holder(v2)")
+            self.features.add("attribute_in_source")
         return out
 
     def arg(self):
+        if getattr(self, "has_v4", False) and self.rng.chance(50):
+            return self.rng.choice(["v4.x", "(v1 if True else v4.boom)", "v4.x if v4 else v4.boom.deeper", "v4"])
         return self.rng.choice(["v1", "v2", "GSECRET", "a", "v1", "v2"])
+
+    def call(self, g):
+        """a call of the generated function g (sometimes with a keyword argument, which the report must not annotate)"""
+        if self.rng.chance(15):
+            self.features.add("keyword_argument")
+            return "%s(a=%s)" % (g, self.arg())
+        return "%s(%s)" % (g, self.arg())
 
     def make(self, depth):
         """emit a function that raises when called; returns its name"""
@@ -240,10 +284,10 @@ class Prog:
             body += ["    raise %s" % self.new_exc()]
         elif kind == "call":
             g = self.make(depth - 1)
-            body += ["    return %s(%s)" % (g, self.arg())]
+            body += ["    return %s" % self.call(g)]
         elif kind in ("from", "ctx", "none", "reraise", "note", "unsuppress", "finally"):
             g = self.make(depth - 1)
-            body += ["    try:", "        %s(%s)" % (g, self.arg()), "    except BaseException as e:"]
+            body += ["    try:", "        %s" % self.call(g), "    except BaseException as e:"]
             if kind == "from":
                 body += ["        raise %s from e" % self.new_exc()]
             elif kind == "ctx":
@@ -325,6 +369,15 @@ class SkipCase(Exception):
     pass
 
 
+SINK_KINDS = ["callable", "ascii", "none", "bogus-codec", "latin-1", "callable", "utf-8"]
+
+
+def sink_kind(seed):
+    """how the 8 sinks of one generated case are attached: a callable (loguru assumes utf8) or a stream object
+    whose `encoding` attribute decides between the box-drawing and the ASCII value arrows"""
+    return SINK_KINDS[(seed >> 5) % len(SINK_KINDS)]
+
+
 class Sink:
     """callable sink; the first call of a logging event captures the heap from the live objects"""
 
@@ -341,6 +394,23 @@ class Sink:
             sh["heap"] = capture_heap(message.record["exception"], sh["genfile"])
             sh["exc"] = message.record["exception"]
         sh["out"][self.mode] = str(message)
+
+
+class StreamSink(Sink):
+    """the same as a stream object (`write`), with an `encoding` attribute like a file or a terminal"""
+
+    def __init__(self, shared, mode, encoding):
+        Sink.__init__(self, shared, mode)
+        self.encoding = encoding
+
+    def write(self, message):
+        Sink.__call__(self, message)
+
+
+def make_sink(shared, mode, kind):
+    if kind == "callable":
+        return Sink(shared, mode)
+    return StreamSink(shared, mode, {"none": None, "bogus-codec": "no-such-codec"}.get(kind, kind))
 
 
 def safe(fn, default):
@@ -443,6 +513,8 @@ def _raising():
 
 
 def entry_from_dec(entry):
+    if entry.startswith("reraise:"):
+        return entry.endswith(":d")
     return entry == "decorator" or (entry.startswith("shared:") and entry.endswith(":d")) \
         or entry.startswith("stacked:") or entry.startswith("invoked:")
 
@@ -457,6 +529,14 @@ def indirect_entries(seed):
     return ["stacked:%d:%d" % (k, r.below(k)), "invoked:" + r.choice(["lazy", "patcher", "onerror"])]
 
 
+def reraise_entries(seed):
+    """the exception first passes through 1-3 `logger.catch(reraise=True)` wrappers (logged there under another
+    message and re-raised), then reaches the judged catch (context manager `c` or decorator `d`): loguru's own wrapper
+    frames then lie in the MIDDLE of the traceback"""
+    r = core.Rng(seed ^ 0x4E4A15E)
+    return ["reraise:%d:%s" % (r.range(1, 3), r.choice("cd"))]
+
+
 def shared_entries(seed):
     """two reuse patterns for a program: 1-4 earlier uses (d = decorate and call, D = decorate only, c = empty
     with-block, x / X = with-block / decorated function that raises and is logged), then the judged use"""
@@ -468,19 +548,20 @@ def shared_entries(seed):
     return out
 
 
-def run_case(src, genfile, entry, limit):
+def run_case(src, genfile, entry, limit, sinks="callable"):
     """execute the program and log its exception through the 8 handlers; returns (outputs, heap, error)"""
     from loguru import logger
     linecache.cache[genfile] = (len(src), None, src.splitlines(True), genfile)
-    glb = {"__name__": "__main__", "POOL": make_pool(), "GSECRET": SECRET + "-global", "M": Tagger()}
+    glb = {"__name__": "__main__", "POOL": make_pool(), "GSECRET": SECRET + "-global", "M": Tagger(), "Holder": Holder}
+    touched0 = Holder.touched
     exec(compile(src, genfile, "exec"), glb)
     main = glb["main"]
     shared = {"heap": None, "out": {}, "genfile": genfile}
     logger.remove()
     hids = []
     for (b, d, c) in MODES:
-        hids.append(logger.add(Sink(shared, (b, d, c)), format="{message}", backtrace=b, diagnose=d, colorize=c,
-                               catch=False))
+        hids.append(logger.add(make_sink(shared, (b, d, c), sinks), format="{message}", backtrace=b, diagnose=d,
+                               colorize=c, catch=False))
     had = hasattr(sys, "tracebacklimit")
     old = getattr(sys, "tracebacklimit", None)
     err = None
@@ -512,6 +593,16 @@ def run_case(src, genfile, entry, limit):
                 else:
                     with logger.catch(message="outer", onerror=logger.catch(message="M")(lambda exc: main())):
                         raise LookupError("outer error")
+            elif entry.startswith("reraise:"):
+                _s, k, final = entry.split(":")
+                fn = main
+                for _j in range(int(k)):
+                    fn = logger.catch(reraise=True, message="passing through")(fn)
+                if final == "d":
+                    logger.catch(message="M")(fn)()
+                else:
+                    with logger.catch(message="M"):
+                        fn()
             elif entry.startswith("shared:"):
                 # ONE catch object used several times, as decorator and as context manager in any order; the
                 # property's clauses are about each use, so only the last (logged and judged) use matters
@@ -554,6 +645,8 @@ def run_case(src, genfile, entry, limit):
                 logger.remove(h)
             except ValueError:
                 pass
+    if err is None and Holder.touched != touched0:
+        err = RuntimeError("the report evaluated a property / __getattr__ of an object in a frame variable")
     if err is None and shared.get("noexc") and shared.get("root_falsy"):
         # documented: opt(exception=x) attaches the exception only "if it does not evaluate as False"
         err = SkipCase("falsy exception passed to opt(exception=)")
@@ -631,12 +724,27 @@ def parse_text(text, labels, assert_labels):
     """exception text -> list of piece tuples (depth last)"""
     out = []
     cont = None    # continuation of a multi-line value: [prefix, depth, index in out, pending empty lines]
+
+    def at_depth(raw, d):
+        """the content of `raw` read as a line of group nesting d (None if it cannot be one).  With an ASCII sink the
+        pipes of value lines (`    |  -> value`) look like group margins, so value lines are read at the nesting of
+        the frame they belong to before the generic margin rule is tried."""
+        if d == 0:
+            return raw
+        pre = "  " * d + "|"
+        if raw == pre:
+            return ""
+        return raw[len(pre) + 1:] if raw.startswith(pre + " ") else None
+
     for raw in ANSI.sub("", text).split("\n"):
         if cont is not None:
             cd, cline = 0, raw
             mm = MARGIN.match(raw)
             if mm:
                 cd, cline = len(mm.group(1)) // 2, mm.group(3) or ""
+            alt = at_depth(raw, cont[1])
+            if alt is not None and (alt.startswith(cont[0]) or (cont[1] > 0 and alt != "" and cont[0].startswith(alt))):
+                cd, cline = cont[1], alt
             if cd == cont[1] and cline.startswith(cont[0]):
                 k, t, dd = out[cont[2]]
                 out[cont[2]] = (k, t + "\n" * (cont[3] + 1) + cline[len(cont[0]):], dd)
@@ -662,6 +770,10 @@ def parse_text(text, labels, assert_labels):
         m = MARGIN.match(raw)
         if m:
             d, plus, line = len(m.group(1)) // 2, m.group(2) == "+", m.group(3) or ""
+        if out and out[-1][0] in ("frame", "val"):
+            alt = at_depth(raw, out[-1][-1])
+            if alt is not None and VALUE.match(alt):
+                d, plus, line = out[-1][-1], False, alt
         if not line.strip():
             continue
         m = LOC.match(line)
@@ -943,9 +1055,9 @@ def judge_case(ctx, rep, src, genfile, entry, limit, outs, heap, exc_info, err, 
                 ln = next(l for l in plain.split("\n") if SECRET in l)
                 ctx.violation("oracle 2 (diagnose=False hides values): a variable value is printed: %r" % ln[:200],
                               dict(mrep, oracle="no-secret"))
-            elif "└" in plain:
-                ctx.violation("oracle 2 (diagnose=False hides values): a value line is printed", dict(mrep, oracle="no-secret"))
         pieces = parse_text(body, labels, assert_labels)
+        if not mode[1] and SECRET not in plain and ("└" in plain or any(p[0] == "val" for p in pieces)):
+            ctx.violation("oracle 2 (diagnose=False hides values): a value line is printed", dict(mrep, oracle="no-secret"))
         # oracle 4: values bounded
         if mode[1]:
             nval = sum(1 for p in pieces if p[0] == "val")
@@ -993,6 +1105,301 @@ def judge_case(ctx, rep, src, genfile, entry, limit, outs, heap, exc_info, err, 
         pending.append((mrep, heap, genfile, pieces, mode))
     lines.append(heap_line("fmtall", heap, MODES[0], limit, from_dec, MODEL_BUDGET))
     ctx.traces_validated += 1
+
+
+# ----------------------------------------------------------------------------- synthetic stacks (`_extract_frames` directly)
+SYN_HIDDEN = "/synthetic/loguru_own.py"
+SYN_USER = "/synthetic/user_%d.py"
+CATCH_MARK = " <Loguru catch point here>"
+SYN_SOURCES = ["callee(alpha, beta)", "return alpha + gamma.attr.deep", "x = f(k=alpha, w=beta); y = gamma.attr",
+               "raise Boom(alpha) from beta", "alpha", "assert alpha == beta, gamma", "del alpha  # beta gamma"]
+
+
+class _SynCode:
+    def __init__(self, filename, name):
+        self.co_filename, self.co_name = filename, name
+
+
+class _SynFrame:
+    def __init__(self, filename, name, lineno, f_locals):
+        self.f_code, self.f_lineno, self.f_back = _SynCode(filename, name), lineno, None
+        self.f_locals, self.f_globals = f_locals, {"gamma": _SynHolder(), "GSECRET": SECRET + "-global"}
+
+
+class _SynHolder:
+    """attribute access in a source line must be resolved statically: no property / __getattr__ may run"""
+    touched = 0
+
+    def __init__(self):
+        self.deep = SECRET + "-deep"
+
+    @property
+    def attr(self):
+        _SynHolder.touched += 1
+        raise RuntimeError(SECRET + " property evaluated")
+
+    def __getattr__(self, name):
+        _SynHolder.touched += 1
+        raise RuntimeError(SECRET + " __getattr__ evaluated")
+
+    def __repr__(self):
+        return "<holder " + SECRET + ">"
+
+
+class _SynTb:
+    def __init__(self, frame, lineno):
+        self.tb_frame, self.tb_lineno, self.tb_next = frame, lineno, None
+
+
+_SYN_CACHE = {}
+
+
+def synth_formatter(bt, dg, co):
+    from loguru._better_exceptions import ExceptionFormatter
+    if (bt, dg, co) not in _SYN_CACHE:
+        _SYN_CACHE[(bt, dg, co)] = ExceptionFormatter(backtrace=bt, diagnose=dg, colorize=co,
+                                                      hidden_frames_filename=SYN_HIDDEN)
+    return _SYN_CACHE[(bt, dg, co)]
+
+
+def synth_spec(rng):
+    """(backtrace, diagnose, colorize, is_first, from_decorator, limit, traceback flags, caller flags, source seed):
+    one character per frame, h = loguru's own file, v = any other file"""
+    def flags(n, hidden_pct):
+        return "".join("h" if rng.chance(hidden_pct) else "v" for _ in range(n))
+    hp = rng.choice([0, 20, 50, 80, 100])
+    ntb = rng.choice([0, 1, 1, 2, 3, 4, 6, 9])
+    npar = rng.choice([0, 0, 1, 2, 3, 5, 8])
+    limit = rng.choice([None, None, None, -3, -1, 0, 1, 2, 3, 4, 5, 7, 12, 100, 10 ** 9])
+    first = rng.chance(70)
+    fd = rng.chance(40)
+    return [rng.chance(50), rng.chance(50), rng.chance(30), first, fd, limit, flags(ntb, hp), flags(npar, hp),
+            rng.below(1 << 30) if rng.chance(60) else None]
+
+
+def synth_build(spec):
+    bt, dg, co, first, fd, limit, tbf, pf, srcseed = spec
+    r = core.Rng(srcseed) if srcseed is not None else None
+    if not _SYN_CACHE.get("pool"):
+        _SYN_CACHE["pool"] = make_pool()
+    pool = _SYN_CACHE["pool"]
+    registered = {}
+
+    def mk(kind, idx, lineno, hidden):
+        fn = SYN_HIDDEN if hidden else SYN_USER % (idx + (0 if kind == "t" else 1000))
+        loc = {}
+        if r is not None and not hidden and r.chance(60):
+            src = r.choice(SYN_SOURCES)
+            lines = [""] * max(lineno, 1)
+            lines[lineno - 1 if lineno > 0 else 0] = "    " + src + "\n"
+            if lineno > 0:
+                linecache.cache[fn] = (1, None, lines, fn)
+                registered[fn] = src
+            loc = {"alpha": pool[r.below(len(pool))], "beta": pool[r.below(len(pool))], "Boom": ValueError}
+        return _SynFrame(fn, "fn_%s%d" % (kind, idx), lineno, loc)
+
+    parents = [mk("p", j, 1001 + j, c == "h") for j, c in enumerate(pf)]
+    for a, b_ in zip(parents, parents[1:]):
+        a.f_back = b_
+    tbs = []
+    for i, c in enumerate(tbf):
+        f = mk("t", i, 1 + i, c == "h")
+        f.f_back = (parents[0] if parents else None) if i == 0 else tbs[-1].tb_frame
+        tbs.append(_SynTb(f, 1 + i))
+    for a, b_ in zip(tbs, tbs[1:]):
+        a.tb_next = b_
+    return (tbs[0] if tbs else None), registered
+
+
+def synth_expected(spec):
+    """the frames the property names, as (number, catch mark): [callers as the mode asks] + the traceback's own
+    non-loguru frames, last `limit` of them"""
+    bt, _dg, _co, first, fd, limit, tbf, pf, _s = spec
+    if not tbf or (limit is not None and limit <= 0):
+        return []
+    vis_tb = [1 + i for i, c in enumerate(tbf) if c == "v"]
+    vis_p = [1001 + j for j, c in enumerate(pf) if c == "v"]
+    pre, mark = [], None
+    if fd and not bt:
+        pre = vis_p[:1]
+    elif bt and first:
+        pre = vis_p[::-1]
+        upto = pre + ([1] if tbf[0] == "v" else [])
+        mark = upto[-1] if upto else None
+    out = [(n, n == mark) for n in pre + vis_tb]
+    return out if limit is None else out[-limit:]
+
+
+def synth_line(spec):
+    bt, _dg, _co, first, fd, limit, tbf, pf, _s = spec
+    return "xf %d %d %d %s %s %s" % (bt, first, fd, "n" if limit is None else limit, tbf or "-", pf or "-")
+
+
+def synth_run(spec):
+    """-> (frames as (number, mark), problem or None)"""
+    bt, dg, co, first, fd, limit, tbf, pf, _s = spec
+    tb, registered = synth_build(spec)
+    touched0 = _SynHolder.touched
+    try:
+        fmtr = synth_formatter(bt, dg, co)
+        try:
+            frames, _final = fmtr._extract_frames(tb, first, limit=limit, from_decorator=fd)
+        except Exception as e:
+            return None, "oracle 3 (never fails): _extract_frames raised %r" % (e,)
+    finally:
+        for fn in registered:
+            linecache.cache.pop(fn, None)
+    got, problem = [], None
+    for filename, lineno, function, source in frames:
+        got.append((lineno, function.endswith(CATCH_MARK)))
+        want = registered.get(filename, "")
+        text = ANSI.sub("", source or "")
+        if filename == SYN_HIDDEN:
+            problem = problem or "one of loguru's own frames is shown"
+        if not dg:
+            if text != want:
+                problem = problem or ("oracle 2 (diagnose=False hides values): the source line of a frame is %r, the file "
+                                      "has %r" % (text[:200], want))
+        else:
+            first_line = text.split("\n")[0]
+            if first_line != want:
+                problem = problem or "the source line of a frame is %r, the file has %r" % (first_line[:200], want)
+            vls = text.split("\n")[1:]
+            for vl in vls:
+                if len(vl) > 4 + len(want) + 3 + 128:
+                    problem = problem or "oracle 4 (values bounded): a value line of %d characters under a source line " \
+                        "of %d characters" % (len(vl), len(want))
+            ncap = sum(1 for vl in vls if "-> " in vl or "\u2514 " in vl)
+            if text.count(MARK) > 128 * ncap:
+                problem = problem or "oracle 4 (values bounded): %d value characters where %d values are displayed" % (
+                    text.count(MARK), ncap)
+    if _SynHolder.touched != touched0:
+        problem = problem or "oracle 3: displaying `obj.attr` evaluated a property / __getattr__ of a user object"
+    return got, problem
+
+
+def run_synth(ctx, rng, n):
+    lines, exp = [], []
+    for _ in range(n):
+        spec = synth_spec(rng)
+        rep = {"stream": "synth", "spec": spec}
+        got, problem = synth_run(spec)
+        want = synth_expected(spec)
+        ctx.case(("synth",) + tuple(spec), nontrivial=len(want) >= 2)
+        ctx.stat("synth:%s" % ("no traceback" if not spec[6] else "limit<=0" if spec[5] is not None and spec[5] <= 0
+                               else "decorator caller" if spec[4] and not spec[0] else
+                               "backtrace" if spec[0] and spec[3] else "own frames only"))
+        if problem:
+            ctx.violation("synthetic stack %r: %s" % (spec[:8], problem), dict(rep, oracle="synth"))
+            continue
+        if got != want and (spec[3] or not spec[4]):
+            ctx.violation("oracle 5 (frames are the traceback's frames in order) on a synthetic stack: _extract_frames("
+                          "backtrace=%s, is_first=%s, from_decorator=%s, limit=%s) over traceback %r / callers %r shows "
+                          "%r, expected %r" % (spec[0], spec[3], spec[4], spec[5], spec[6], spec[7], got, want),
+                          dict(rep, oracle="synth"))
+        lines.append(synth_line(spec))
+        exp.append((spec, got))
+    return lines, exp
+
+
+# ----------------------------------------------------------------------------- the closing line (`__str__` of the exception)
+CLOSING_FILE = "/synthetic/closing_%d.py"
+CLOSING_SRC = "def boom(exc):\n    raise exc\n"
+
+
+class _StrFailed(Exception):
+    pass
+
+
+def closing_grid():
+    """(base, str behaviour, args, raised, source available, diagnose, backtrace)"""
+    out = []
+    for base in ("AssertionError", "AssertSub", "Exception", "ValueError", "KeyError"):
+        for sk in ("default", "empty", "text", "raise", "raise_custom", "spaces"):
+            for args in ((), ("",), ("msg",)):
+                for raised in (True, False):
+                    for src in (True, False):
+                        for dg in (True, False):
+                            for bt in (False, True):
+                                if (not raised and not src) or (bt and not dg and sk != "raise"):
+                                    continue
+                                out.append((base, sk, args, raised, src, dg, bt))
+    return out
+
+
+def closing_make(spec):
+    base, sk, args, raised, src, dg, bt = spec
+    parent = {"AssertionError": AssertionError, "Exception": Exception, "ValueError": ValueError, "KeyError": KeyError,
+              "AssertSub": type("AssertSub", (AssertionError,), {})}[base]
+    body = {}
+    if sk == "empty":
+        body["__str__"] = lambda self: ""
+    elif sk == "text":
+        body["__str__"] = lambda self: "text " + SECRET
+    elif sk == "spaces":
+        body["__str__"] = lambda self: "  "
+    elif sk == "raise":
+        def bad(self):
+            raise RuntimeError("str failed")
+        body["__str__"] = bad
+    elif sk == "raise_custom":
+        def bad2(self):
+            raise _StrFailed("str failed")
+        body["__str__"] = bad2
+    cls = type("C_" + base, (parent,), body) if body else parent
+    e = cls(*args)
+    fn = CLOSING_FILE % (1 if src else 0)
+    if raised:
+        glb = {}
+        exec(compile(CLOSING_SRC, fn, "exec"), glb)
+        try:
+            glb["boom"](e)
+        except BaseException as caught:
+            e = caught
+    return e, fn
+
+
+def closing_run(spec):
+    """-> (appended?, str outcome token, problem or None)"""
+    from loguru._better_exceptions import ExceptionFormatter
+    base, sk, args, raised, src, dg, bt = spec
+    e, fn = closing_make(spec)
+    if src:
+        linecache.cache[fn] = (len(CLOSING_SRC), None, CLOSING_SRC.splitlines(True), fn)
+    try:
+        key = ("closing", dg, bt)
+        if key not in _SYN_CACHE:
+            _SYN_CACHE[key] = ExceptionFormatter(diagnose=dg, backtrace=bt, colorize=False, hidden_frames_filename=__file__)
+        try:
+            text = "".join(_SYN_CACHE[key].format_exception(type(e), e, e.__traceback__))
+        except Exception as err:
+            return None, None, "oracle 3 (never fails): format_exception raised %r for an exception whose __str__ %s" % (
+                err, "raises" if sk.startswith("raise") else "returns")
+        std = traceback.format_exception_only(type(e), e)
+    finally:
+        linecache.cache.pop(fn, None)
+    try:
+        tok = "s" if str(e) else "e"
+    except Exception:
+        tok = "!"
+    std_line = next((l for l in std if not l.startswith(" ")), "\n")[:-1]
+    lines = text.split("\n")
+    plain, appended = std_line in lines, (std_line + ": raise exc") in lines
+    problem = None
+    if not dg and "".join(std) != text[-len("".join(std)):]:
+        problem = "the closing lines are %r, traceback.format_exception_only gives %r" % (text[-200:], "".join(std))
+    elif plain == appended:
+        problem = "closing line neither standard nor standard + ': <source>': %r (standard %r)" % (lines[-3:], std_line)
+    elif appended and not (dg and isinstance(e, AssertionError)):
+        problem = "source appended to the closing line %r outside diagnose / AssertionError" % (lines[-2],)
+    return appended, tok, problem
+
+
+SLICE_BOUNDS = [None, -7, -6, -5, -4, -2, -1, 0, 1, 2, 4, 5, 6, 7, 10 ** 9, -10 ** 9]
+
+
+def slice_grid():
+    return [(lo, hi, n) for n in (0, 1, 5) for lo in SLICE_BOUNDS for hi in SLICE_BOUNDS]
 
 
 # ----------------------------------------------------------------------------- F12 witness + corpus
@@ -1111,24 +1518,30 @@ def run(ctx):
     probe_f12(ctx)
     run_corpus(ctx, lines, pending)
 
-    nprog = ctx.n(350, 400) * boost
+    nprog = ctx.n(320, 300) * boost
     std_lines, std_expect = [], []
     for i in range(nprog):
         seed = rng.next()
         src, features = gen_case(seed)
-        all_entries = ENTRIES + shared_entries(seed) + indirect_entries(seed)
-        entries = [all_entries[i % 7]] if ctx.quick else all_entries
-        limits = [LIMITS[(i // 3) % 4]] if ctx.quick and i % 2 else ([None] if ctx.quick else LIMITS)
+        all_entries = ENTRIES + shared_entries(seed) + indirect_entries(seed) + reraise_entries(seed)
+        entries = [all_entries[i % 8]] if ctx.quick else all_entries
+        all_limits = LIMITS + MORE_LIMITS
+        if ctx.quick:
+            limits = [all_limits[(i // 3) % len(all_limits)]] if i % 2 else [None]
+        else:
+            limits = [None, (0, -1, -7)[i % 3], (1, 2)[i % 2], (3, 5, 1000, 4)[i % 4]]
+        sinks = sink_kind(seed)
+        ctx.stat("sinks:" + sinks)
         for entry in entries:
             for limit in limits:
                 genfile = "/tmp/c13_gen_%x.py" % seed
                 rep = {"stream": "gen", "case_seed": seed, "entry": entry, "limit": limit}
-                outs, heap, exc_info, err = run_case(src, genfile, entry, limit)
+                outs, heap, exc_info, err = run_case(src, genfile, entry, limit, sinks)
                 nontrivial = heap is not None and (len(heap) >= 2 or any(x["group"] is not None for x in heap)
                                                    or any(f.startswith("recursion") for f in features))
                 ctx.case((seed, entry, limit), nontrivial=nontrivial, n=8)
                 ctx.stat("entry:" + (entry if not entry.startswith("shared:") else "shared object, judged use " +
-                                     ("decorator" if entry.endswith(":d") else "context manager")))
+                                     ("decorator" if entry.endswith(":d") else "context manager")).split(":")[0])
                 ctx.stat("limit:%s" % limit)
                 if heap is not None:
                     ctx.stat("heap_size:%s" % (len(heap) if len(heap) < 6 else "6+"))
@@ -1184,7 +1597,44 @@ def run(ctx):
         kinds = "".join("d" if u in "dDX" else "c" for u in prior + final)
         use_lines.append("uses " + kinds)
         use_exp.append((pat, "ok " + "".join("1" if k == "d" else "0" for k in kinds)))
-    out = drv.run(lines + std_lines + val_lines + use_lines)
+    # ---- synthetic stacks: `_extract_frames` itself against the property (direct) and `Exc.extractLoop` (model)
+    syn_lines, syn_exp = run_synth(ctx, rng.fork("synth"), ctx.n(1500, 40000) * boost)
+    sl_grid = slice_grid()
+    sl_lines = ["slice %s %s %d" % ("n" if lo is None else lo, "n" if hi is None else hi, n) for lo, hi, n in sl_grid]
+    # ---- the closing line: `__str__` of the exception object (never fails; standard unless a bare assert under diagnose)
+    cl_lines, cl_exp = [], []
+    for spec in closing_grid():
+        ctx.case(("closing",) + tuple(map(str, spec)))
+        appended, tok, problem = closing_run(spec)
+        if problem:
+            ctx.violation("closing line of %s%r with __str__ kind %r (raised=%s, source=%s, diagnose=%s): %s" % (
+                spec[0], spec[2], spec[1], spec[3], spec[4], spec[5], problem),
+                {"stream": "closing", "spec": list(spec), "oracle": "closing"})
+            continue
+        cl_lines.append("closing %d %d %d %d %s" % (spec[5], spec[3], spec[4] and spec[3], spec[0].startswith("Assert"), tok))
+        cl_exp.append((spec, "ok %d" % appended))
+    out = drv.run(lines + std_lines + val_lines + use_lines + syn_lines + sl_lines + cl_lines)
+    for (spec, want), o in zip(cl_exp, out[len(out) - len(cl_lines):] if cl_lines else []):
+        ctx.evaluations += 1
+        if o != want:
+            ctx.broke("correspondence Exc.assertSuffix", "%r: impl %r model %r" % (spec, want, o))
+            ctx.violation("closing line: implementation and model disagree for %r: impl %r, model %r" % (spec, want, o),
+                          {"stream": "closing", "spec": list(spec), "oracle": "model"}, kind="correspondence")
+            break
+    off2 = len(lines) + len(std_lines) + len(val_lines) + len(use_lines)
+    for (spec, got), o in zip(syn_exp, out[off2:]):
+        ctx.evaluations += 1
+        want = "ok" + "".join(" %d:%d" % (n, m) for n, m in got)
+        if o != want:
+            ctx.broke("correspondence Exc.extractLoop", "%r: impl %r model %r" % (spec, want, o))
+            ctx.violation("_extract_frames and the model disagree on the synthetic stack %r: impl %r, model %r" % (
+                spec[:8], want, o), {"stream": "synth", "spec": spec, "oracle": "model"}, kind="correspondence")
+            break
+    for (lo, hi, n), o in zip(sl_grid, out[off2 + len(syn_lines):]):
+        ctx.evaluations += 1
+        if o != "ok" + "".join(" %d" % i for i in list(range(n))[lo:hi]):
+            ctx.broke("correspondence Py.slice", "range(%d)[%r:%r]: model %r" % (n, lo, hi, o))
+            break
     for (pat, exp), o in zip(use_exp, out[len(lines) + len(std_lines) + len(val_lines):]):
         ctx.evaluations += 1
         if o != exp:
@@ -1260,6 +1710,49 @@ def replay(ctx, rep):
     lines, pending = [], []
     if r.get("stream") == "witness":
         probe_f12(c)
+    elif r.get("stream") == "closing":
+        spec = r["spec"]
+        spec[2] = tuple(spec[2])
+        appended, tok, problem = closing_run(tuple(spec))
+        print("exception %s%r, __str__ kind %r, raised=%s, source line available=%s, diagnose=%s, backtrace=%s" % tuple(spec))
+        print("source appended to the closing line:", appended, " str(exc):", {"e": "empty", "s": "non-empty", "!": "raises"}.get(tok))
+        bad = bool(problem)
+        if problem:
+            print("problem:", problem)
+        elif r.get("oracle") == "model":
+            try:
+                o = core.Driver(DRIVER).run(["closing %d %d %d %d %s" % (spec[5], spec[3], spec[4] and spec[3],
+                                                                        spec[0].startswith("Assert"), tok)])[0]
+                print("model:", o)
+                bad = o != "ok %d" % appended
+            except core.DriverError:
+                print("model: (driver does not build against this tree)")
+        print("REPRODUCED" if bad else "not reproduced")
+        return 1 if bad else 0
+    elif r.get("stream") == "synth":
+        spec = r["spec"]
+        got, problem = synth_run(spec)
+        want = synth_expected(spec)
+        print("_extract_frames(backtrace=%s, is_first=%s, from_decorator=%s, limit=%s), diagnose=%s colorize=%s" % (
+            spec[0], spec[3], spec[4], spec[5], spec[1], spec[2]))
+        print("traceback frames (h = loguru's own file):", spec[6] or "-", " callers, innermost first:", spec[7] or "-")
+        print("shown   :", got)
+        print("expected:", want, "(traceback frames are numbered 1.., callers 1001..; True = catch point)")
+        if problem:
+            print("problem :", problem)
+        try:
+            print("model   :", core.Driver(DRIVER).run([synth_line(spec)])[0])
+        except core.DriverError:
+            print("model   : (driver does not build against this tree)")
+        bad = bool(problem) or (got != want and (spec[3] or not spec[4]))
+        if r.get("oracle") == "model" and not bad and got is not None:
+            try:
+                o = core.Driver(DRIVER).run([synth_line(spec)])[0]
+                bad = o != "ok" + "".join(" %d:%d" % (n, m) for n, m in got)
+            except core.DriverError:
+                pass
+        print("REPRODUCED" if bad else "not reproduced")
+        return 1 if bad else 0
     elif r.get("stream") == "val":
         from loguru._better_exceptions import ExceptionFormatter
         spec = tuple(r["spec"])
@@ -1289,7 +1782,8 @@ def replay(ctx, rep):
         else:
             src, _f = gen_case(r["case_seed"])
             genfile = "/tmp/c13_gen_%x.py" % r["case_seed"]
-        outs, heap, exc_info, err = run_case(src, genfile, r["entry"], r["limit"])
+        outs, heap, exc_info, err = run_case(src, genfile, r["entry"], r["limit"],
+                                             "callable" if r.get("stream") == "corpus" else sink_kind(r["case_seed"]))
         judge_case(c, {k: r[k] for k in r if k not in ("mode", "oracle", "expected", "observed")}, src, genfile,
                    r["entry"], r["limit"], outs, heap, exc_info, err, lines, pending)
         print("---- program\n" + src)
